@@ -6,7 +6,7 @@ corrupted signature, re-keyed signature, sigrefs naming another repository's ide
 sigrefs commit, sigrefs ref missing, unsigned/moved namespace rad/id, rad/id without sigrefs for an unknown namespace, dropped \
 rad/ ref, new namespace, honestly deleted ref) x victim kind (delegate / non-delegate) x (pull / clone) x announced refs_at \
 (none / current tip / older tip / forged commit / blocked or own key / duplicate key), plus random combinations of two tampered \
-namespaces, scopes, block lists and delegate sets; executed on real git repositories through a real `git upload-pack`; \
+namespaces, scopes, block lists, delegate sets and reversed ls-refs order; executed on real git repositories through a real `git upload-pack`; \
 non-trivial = some namespace was tampered or changed; distinct by scenario text";
 
 pub const C02_RULE: &str = "delegate sets of size 1..4, thresholds 1..n, local node delegate or not, blocked delegates, per-delegate \
@@ -154,6 +154,10 @@ pub fn c01_cases(rng: &mut Rng, quick: bool) -> Vec<String> {
         out.push(scenario(n, &d, t, local, false, &format!("f:{victim}"), &[], "-", &[format!("S.commit.{victim}.master;S.resign.{victim};S.commit.{other}.master;S.resign.{other}")]));
         out.push(scenario(n, &d, t, local, false, "f:-", &[], "-", &[format!("S.commit.{victim}.master;S.resign.{victim};S.commit.{other}.master;S.resign.{other}")]));
     }
+    // the serving side lists references in reverse name order (rad/sigrefs before rad/id)
+    out.push(scenario(n, &d, t, local, false, "all", &[], "-", &["S.commit.1.master;S.resign.1;S.commit.2.master;S.resign.2;S.revorder".into()]));
+    out.push(scenario(n, &d, t, 5, true, "all", &[], "-", &["S.commit.1.master;S.resign.1;S.revorder".into()]));
+    out.push(scenario(n, &d, t, local, false, "f:2", &[], "-", &["S.commit.2.master;S.resign.2;S.set.2.id.0.id;S.revorder".into()]));
     // local is a delegate pulling its co-delegate; local's own namespace announced
     out.push(scenario(2, &[0, 1], 2, 0, false, "all", &[], "-", &["S.commit.1.master;S.resign.1".into()]));
     out.push(scenario(2, &[0, 1], 2, 0, false, "all", &[], "0:a", &["L.commit.0.master;L.resign.0;S.mark.0.a".into()]));
